@@ -88,7 +88,7 @@ func newSyncWorld(thorough bool) *syncWorld {
 
 	sw.envelopeSeeds(thorough)
 	sw.jwsSeeds()
-	sw.bbsSeeds()
+	sw.bbsSeeds(thorough)
 	sw.didKeySeeds()
 	sw.sdjwtSeeds()
 	sw.docSeeds()
@@ -140,7 +140,7 @@ func (s *syncWorld) envelopeSeeds(thorough bool) {
 		for _, kind := range []string{"jwe-auth", "jwe-anon"} {
 			for _, style := range []string{"didkey", "diddoc"} {
 				for _, rs := range [][]*c01env.Key{{r1}, {r2, r1}, {r1, r2, r1b}} {
-					if len(rs) == 3 && style != "didkey" {
+					if style != "didkey" && (len(rs) != 2 || (!thorough && kind == "jwe-anon")) {
 						continue
 					}
 
@@ -282,7 +282,7 @@ func (s *syncWorld) jwsSeeds() {
 
 // ---------- E5: BBS+ ----------
 
-func (s *syncWorld) bbsSeeds() {
+func (s *syncWorld) bbsSeeds(thorough bool) {
 	pubK, privK, err := bbs.GenerateKeyPair(sha256.New, []byte("c03-bbs-seed-0123456789abcdef012"))
 	must(err)
 
@@ -327,6 +327,11 @@ func (s *syncWorld) bbsSeeds() {
 		}
 
 		for ri, rev := range revs {
+			// quick tier: four of the seven (message count, revealed set) combinations
+			if !thorough && ((n == 3 && ri != 1) || (n == 9 && ri == 1)) { //nolint:gomnd
+				continue
+			}
+
 			proof, e2 := b.DeriveProof(msgs, sig, nonce, pub, append([]int{}, rev...))
 			must(e2)
 
